@@ -359,7 +359,9 @@ def rule_identity(P) -> RuleResult:
             if muts:
                 res.fail(construct, 'identity:rows', f'the output rows are reordered ({muts[0][2]})', loc(fi))
     # two amount-like columns published under the same name with the same type: each is decomposed on its own cells
-    TW = [Sym('TWIN_COLUMN0'), Sym('TWIN_COLUMN1')]
+    # description entries compare equal when name and type agree (Column.__eq__): the two are the same term, as they are equal objects -
+    # whatever finds a column's position by equality finds the first of them
+    TW = [T('new', ('Column', ('total', Sym('AMOUNT_TYPE'))))] * 2
     calls2 = []
 
     def on_call_tw(fname, fval, recv, args, kwargs, ex, node):
